@@ -94,3 +94,16 @@ Proof. exact Arena_proofs.bound_height_free. Qed.
 
 Theorem C07_old_admission_bound_refuted : ArenaSpec.old_bound_refuted_stmt.
 Proof. exact Arena_proofs.old_bound_refuted. Qed.
+
+(* the same accounting for EVERY reachable memtable: through any sequence of batches added to one memtable (accepted or refused,
+   any heights) the counter is the start plus the cost of the accepted batches, no allocation fails after a granted reservation,
+   an unused tower always still fits, and a batch that was refused stays refused until the memtable is replaced (so the rotation
+   that follows ArenaFull is the only way forward, never a retry on the same memtable) *)
+Theorem C07_arena_reachable_counter : ArenaSpec.reachable_counter_stmt.
+Proof. exact Arena_proofs.reachable_counter. Qed.
+
+Theorem C07_arena_refused_stays_refused : ArenaSpec.refused_stays_refused_stmt.
+Proof. exact Arena_proofs.refused_stays_refused. Qed.
+
+Theorem C07_arena_reachable_counter_example : ArenaSpec.reachable_counter_example_stmt.
+Proof. exact Arena_proofs.reachable_counter_example. Qed.
